@@ -610,6 +610,7 @@ func genCase(t *rapid.T) Case {
 	nb := rapid.IntRange(1, 8).Draw(t, "blocks")
 	depth := -1 // depth of the previous list item (-1: not in a list)
 	ordered := false
+	var kindAt [3]bool // kind of the open list at each depth
 	for i := 0; i < nb; i++ {
 		kind := rapid.SampledFrom([]string{"heading", "para", "item", "item", "table", "table"}).Draw(t, "kind")
 		if c.Target == "modeltable" || c.Target == "xlsx" {
@@ -636,9 +637,17 @@ func genCase(t *rapid.T) Case {
 			d := 0
 			if depth >= 0 {
 				d = rapid.IntRange(0, minInt(depth+1, 2)).Draw(t, "depth") // a list deepens one level at a time
-				// one definition per list in the word-processor formats: keep the kind within a run of items
+				// one definition per list in the word-processor formats: keep the kind within a run of items.
+				// HTML nests <ol> in <ul> items and vice versa: a nested list may have the other kind
+				if c.Target == "html" && d > depth && rapid.Bool().Draw(t, "otherKind") {
+					kindAt[d] = !kindAt[depth]
+				} else if d > depth {
+					kindAt[d] = kindAt[depth]
+				}
+				ordered = kindAt[d]
 			} else {
 				ordered = rapid.Bool().Draw(t, "ordered")
+				kindAt = [3]bool{ordered, ordered, ordered}
 			}
 			c.Blocks = append(c.Blocks, Blk{Kind: "item", Level: d, Ordered: ordered, Text: tok() + " " + tok()})
 			depth = d
